@@ -16,11 +16,12 @@
  * POSIX: "returns the number of bytes in s, not counting the terminating NUL, but at most maxlen;
  * looks only at the first maxlen bytes".
  *   r <= maxlen;  r < maxlen ==> s[r] == 0;  no NUL in s[0..r)  -- the last one instantiated at the ghost
- *   index g_sn (arbitrary, so: at every index; a caller's contract requires(g_sn == <its own probe>)).
+ *   indices g_sn, g_sn1, g_sn2 (arbitrary, so: at every index; a caller's contract
+ *   requires(g_sn == <its own probe>) for the indices at which its proof needs the fact).
  * Recording: the caller's E_ hook snapshots (by assignment) the strings it is going to measure into
  * g_str_a / g_str_b; a call with s == g_str_a stores its result in w_len_a (g_str_b: w_len_b).
  * The requires is *checked* at every replaced call: maxlen bytes must be readable. */
-extern size_t g_sn;
+extern size_t g_sn, g_sn1, g_sn2;
 extern const char *g_str_a, *g_str_b;
 extern size_t w_len_a, w_len_b;
 
@@ -32,6 +33,8 @@ __CPROVER_assigns(s == g_str_a: w_len_a; s == g_str_b: w_len_b)
 __CPROVER_ensures(__CPROVER_return_value <= maxlen)
 __CPROVER_ensures(__CPROVER_return_value < maxlen ==> s[__CPROVER_return_value] == 0)
 __CPROVER_ensures(g_sn < __CPROVER_return_value ==> s[g_sn] != 0)
+__CPROVER_ensures(g_sn1 < __CPROVER_return_value ==> s[g_sn1] != 0)
+__CPROVER_ensures(g_sn2 < __CPROVER_return_value ==> s[g_sn2] != 0)
 __CPROVER_ensures(s == g_str_a ==> w_len_a == __CPROVER_return_value)
 __CPROVER_ensures(s == g_str_b ==> w_len_b == __CPROVER_return_value);
 /* clang-format on */
@@ -54,7 +57,7 @@ __CPROVER_ensures(w_crc_calls == __CPROVER_old(w_crc_calls) + 1);
 /* clang-format on */
 
 #define STUB_GHOST_DEFS                                                                            \
-        size_t g_sn;                                                                               \
+        size_t g_sn, g_sn1, g_sn2;                                                                             \
         const char *g_str_a, *g_str_b;                                                             \
         size_t w_len_a, w_len_b;                                                                   \
         uint32_t w_crc_seed, w_crc_ret, w_crc_calls;                                               \
